@@ -98,7 +98,7 @@ def rr_kinds(ctx):
 # (b) El Torito entry enumerations
 # ---------------------------------------------------------------------------
 @rule('SA-SIB.eltorito_entries')
-@props('C02', 'C07', 'C11')
+@props('C02', 'C07', 'C11', 'C15')
 def eltorito_entries(ctx):
     ci = ctx.cls('eltorito.EltoritoBootCatalog')
     for s in ('initial_entry', 'sections', 'standalone_entries'):
@@ -112,8 +112,20 @@ def eltorito_entries(ctx):
             if isinstance(node, ast.Attribute) and node.attr in ('initial_entry', 'section_entries', 'standalone_entries'):
                 attrs.setdefault(node.attr, node)
         # an "all entries" enumeration: mentions the initial entry and loops over section entries
-        loops = [x for x in ctx.own_nodes(fi) if isinstance(x, ast.For) and isinstance(x.iter, ast.Attribute)
-                 and x.iter.attr == 'section_entries']
+        # ... in a loop, a comprehension, or handed whole to extend()/list()/+ (building the list with .append, or
+        # measuring it with len(), is not an enumeration)
+        par = ctx.parents(fi)
+        loops = []
+        for x in ctx.own_nodes(fi):
+            if isinstance(x, ast.Attribute) and x.attr == 'section_entries' and isinstance(x.ctx, ast.Load):
+                p = par.get(id(x))
+                if isinstance(p, ast.Attribute) and p.attr in ('append', 'insert', 'remove', 'pop'):
+                    continue
+                if isinstance(p, ast.Call) and norm(p.func) == 'len':
+                    continue
+                if isinstance(p, ast.Subscript) and p.value is x:
+                    continue
+                loops.append(x)
         if 'initial_entry' in attrs and loops and fi.cls is not ctx.m.classes.get('eltorito.EltoritoSectionHeader'):
             if fi.name in ('parse',):
                 continue
